@@ -67,16 +67,20 @@ def matchPrefix (kw : Bytes) (arg : Bytes) : Option Bytes :=
     | _ => none
   else none
 
-/-- `find_outside_quotes(arg, b'>', start)` relative to the text after `<`: `(address, rest after >)`. -/
-def splitAddr (quoted : Bool) : Bytes → Option (Bytes × Bytes)
+/-- `find_outside_quotes(arg, b'>', start)` relative to the text after `<`: `(address, rest after >)`.
+    Inside a double-quoted run a backslash makes the next byte part of the run. -/
+def splitAddrAux (quoted escaped : Bool) : Bytes → Option (Bytes × Bytes)
   | [] => none
   | b :: rest =>
     if !quoted && b == 62 then some ([], rest)
     else
-      let q' := if b == 34 then !quoted else quoted
-      match splitAddr q' rest with
+      let q' := if !quoted then b == 34 else if escaped then true else if b == 92 then true else !(b == 34)
+      let e' := quoted && !escaped && b == 92
+      match splitAddrAux q' e' rest with
       | some (a, r) => some (b :: a, r)
       | none => none
+
+def splitAddr (quoted : Bool) : Bytes → Option (Bytes × Bytes) := splitAddrAux quoted false
 
 def isWord (b : Byte) : Bool := isDigit b || isAlpha b || b == 95
 def isAlnum (b : Byte) : Bool := isDigit b || isAlpha b
